@@ -827,29 +827,54 @@ def v2_deposit(ctx, la, sa, acls):
     mon, m = ctx.mon, ctx.m
     st, cfg = v2_state(ctx.row), v2_cfg_of(m)
     exp = G.deposit(cfg, st, la, sa)
-    if exp["reverts"]:
-        # the negative price impact exceeds what is left of a deposited side after fees: the contract reverts
-        # (unsigned arithmetic) and the statement says nothing about such a deposit -> outside the domain, not issued
-        mon.cls("v2/dep/not-issued:negative-impact>deposit")
-        return None, exp
-    if exp["info"]["sign_ambiguous"]:
-        # dust below the float noise of the impact formula: binary64 may report an impact as low as the smallest
-        # admissible value minus the bound, and if that alone exceeds the deposit the same thing happens
-        worst = min(exp["info"]["candidates"]) - exp["err_usd"]
-        if G.deposit(cfg, st, la, sa, impact_override=worst)["reverts"]:
-            mon.cls("v2/dep/not-issued:deposit-below-float-noise-of-impact")
-            return None, exp
+    # Deposits the model has no prediction for are issued all the same, and may be refused or accepted, but an accepted
+    # one mints a non-negative amount and moves exactly what it says (no negative holding, C03's clause as well):
+    #  * exp["reverts"]: the negative price impact exceeds what is left of a deposited side after fees (the contract's
+    #    unsigned arithmetic reverts; the statement says nothing about such a deposit);
+    #  * dust below the float noise of the impact formula: binary64 may report an impact as low as the smallest
+    #    admissible value minus the bound, and if that alone exceeds the deposit the same thing happens.
+    worst = min(list(exp["info"]["candidates"]) + [exp["impact_usd"]]) - exp["err_usd"]
+    dust = bool(G.deposit(cfg, st, la, sa, impact_override=worst)["reverts"])
+    undetermined = bool(exp["reverts"]) or dust
     wb = ctx.wallet()
     held_before = F(float(m.amount))
     n_act = len(ctx.fz.actions)
     res = Dr.call_op(m.deposit, la, sa)
     side = "both" if la > 0 and sa > 0 else ("long" if la > 0 else "short")
     if not res.ok:
+        from demeter import DemeterError
+
+        if undetermined and isinstance(res.exc, DemeterError):
+            mon.ev()
+            mon.hit("deposit-refused-undetermined")
+            mon.cls("v2/dep/refused:" + ("negative-impact>deposit" if exp["reverts"] else "deposit-below-float-noise-of-impact"))
+            if F(float(m.amount)) != held_before or ctx.wallet() != wb or len(ctx.fz.actions) != n_act:
+                mon.violation("gmx2", "deposit", "refused-but-moved", "undetermined", f"{ctx.label}: deposit({la}, {sa}) refused ({res.exc!r}) "
+                              f"but holding {m.amount} (was {_fl(held_before)}), wallet {ctx.wallet()} (was {wb})")
+            return res, exp
         mon.violation("gmx2", "deposit", "raises", res.site or type(res.exc).__name__,
                       f"{ctx.label}: deposit({la}, {sa}) raised {res.exc!r}")
         return res, exp
     mon.hit("deposit")
     r = res.ret
+    mon.ev()
+    if float(r.gm_amount) < 0 or float(m.amount) < 0:
+        mon.violation("gmx2", "deposit", "negative-mint", ("negative-impact>deposit" if exp["reverts"] else "dust") if undetermined else "plain",
+                      f"{ctx.label}: deposit({la}, {sa}) accepted, minted {r.gm_amount} GM, holding now {m.amount}")
+    if undetermined:
+        # accepted: the ledger follows the code (amounts are not compared with a model that has none), moves are exact
+        mon.hit("deposit-accepted-undetermined")
+        mon.cls("v2/dep/accepted:" + ("negative-impact>deposit" if exp["reverts"] else "deposit-below-float-noise-of-impact"))
+        wa = ctx.wallet()
+        ln, sn = m.long_token.name, m.short_token.name
+        for name in wb:
+            d = -F(float(la)) if name == ln else (-F(float(sa)) if name == sn else Fraction(0))
+            mon.ev()
+            if not wallet_ok(wb[name], wa[name], d):
+                mon.violation("gmx2", "deposit", "wallet-move", "long" if name == ln else "short",
+                              f"{ctx.label}: wallet {name} moved {wa[name] - wb[name]}, expected {_fl(d)}")
+        ctx.held = F(float(m.amount))
+        return res, exp
     ambiguous = exp["info"]["sign_ambiguous"]
     if ambiguous:
         # binary64 cannot resolve the sign of the real-pool impact (it is below the rounding of the pool values): the
@@ -1020,8 +1045,13 @@ def pick_v2_deposit(rng, st):
     pool = float(lu + su)
     light_long = lu < su  # depositing long balances the pool
     k = rng.random()
-    if k < 0.08:
+    if k < 0.05:
         usd, cl = 10 ** rng.uniform(-15, -3), "dust"
+    elif k < 0.10:
+        # of the order of one unit in the last place of the pool's (or the virtual inventory's) USD figures: the float
+        # evaluation of the impact is pure rounding noise of about that size, positive or negative
+        big = max([float(lu), float(su)] + [float(v * p_) for v, p_ in ((st.virt_long, st.long_price), (st.virt_short, st.short_price)) if v is not None])
+        usd, cl = math.ulp(big) * 10 ** rng.uniform(-0.5, 1.6), "ulp"
     elif k < 0.25:
         usd, cl = 10 ** rng.uniform(-1, 4), "retail"
     elif k < 0.40:
